@@ -36,3 +36,6 @@ func H11m_ReusedMap() {
 	}
 	vrt.Assert("the map's only key still equals the decoded key", n == 1 && allEq)
 }
+
+// the long interning history also decides C11's "no aliasing of the input" for interned strings
+func H11m_ManyValues() { H19_ManyValues() }
